@@ -58,21 +58,26 @@ def tree_of(base, pay):
     return out
 
 
-def observe(base, pay, wcfg, level):
+def observe(base, pay, wcfg, level, long_lived=()):
+    """fetch_file / file_exists of every name through a FRESH accessor and through
+    the long-lived ones (the writer itself, a reader opened before the history:
+    a stale cache inside an accessor object must not change the answers);
+    the probe order is exists-then-fetch on odd steps, fetch-then-exists on even."""
     from neuroglancer_scripts import file_accessor as fa
     files = []
-    acc = fa.FileAccessor(base, flat=wcfg["flat"], gzip=wcfg["gzip"], compresslevel=level)
-    for n in NAMES:
-        ent = {"n": n}
-        try:
-            ent.update(st="ok", v=_id_of(acc.fetch_file(n), pay))
-        except Exception as e:
-            ent.update(st="err", v=99, cls=type(e).__name__)
-        try:
-            ent["ex"] = bool(acc.file_exists(n))
-        except Exception as e:
-            ent["ex"] = "exc:" + type(e).__name__
-        files.append(ent)
+    fresh = fa.FileAccessor(base, flat=wcfg["flat"], gzip=wcfg["gzip"], compresslevel=level)
+    for acc in (fresh,) + tuple(long_lived):
+        for n in NAMES:
+            ent = {"n": n}
+            try:
+                ent["ex"] = bool(acc.file_exists(n))
+            except Exception as e:
+                ent["ex"] = "exc:" + type(e).__name__
+            try:
+                ent.update(st="ok", v=_id_of(acc.fetch_file(n), pay))
+            except Exception as e:
+                ent.update(st="err", v=99, cls=type(e).__name__)
+            files.append(ent)
     chunks = []
     for c in CHUNKS:
         rs = []
@@ -93,8 +98,11 @@ def run_history(workdir, cfg, ops, salt=0, level=9):
     base = tempfile.mkdtemp(prefix="fs_", dir=workdir)
     pay = payloads(salt)
     acc = fa.FileAccessor(base, flat=cfg["flat"], gzip=cfg["gzip"], compresslevel=level)
+    reader = fa.FileAccessor(base, flat=cfg["flat"], gzip=cfg["gzip"], compresslevel=level)
     events = []
     try:
+        # both long-lived accessors look at the (still empty) dataset first
+        observe(base, pay, cfg, level, long_lived=(acc, reader))
         for op in ops:
             e = dict(op)
             try:
@@ -109,7 +117,7 @@ def run_history(workdir, cfg, ops, salt=0, level=9):
                 e["res"] = "exc"
                 e["cls"] = type(ex).__name__
             e["tree"] = tree_of(base, pay)
-            e["files"], e["chunks"] = observe(base, pay, cfg, level)
+            e["files"], e["chunks"] = observe(base, pay, cfg, level, long_lived=(acc, reader))
             e.setdefault("name", "")
             e.setdefault("c", [])
             events.append(e)
